@@ -14,7 +14,7 @@ use std::path::Path;
 use tree_sitter::Node;
 use tree_sitter_graph::parse_error::ParseError;
 
-fn expected_outermost<'t>(node: Node<'t>, out: &mut Vec<(bool, Node<'t>)>) {
+pub fn expected_outermost<'t>(node: Node<'t>, out: &mut Vec<(bool, Node<'t>)>) {
     if node.is_error() {
         out.push((false, node));
         return;
